@@ -69,7 +69,20 @@ for _c in ("Inner", "Base", "Sub1"):
     CLASS_NAMES[_c] = _c
     CLASS_NAMES[MODNAME + "." + _c] = _c
 TCLS = {"k": "cls", "a": []}
-CLS_KEYS = {"cls": TCLS, "lc": {"k": "list", "a": [TCLS]}, "oc": {"k": "opt", "a": [TCLS]}}
+CLS_KEYS = {"cls": TCLS, "lc": {"k": "list", "a": [TCLS]}, "oc": {"k": "opt", "a": [TCLS]}, "lk": TCLS}
+
+
+def tot_fn(src):
+    return src * 3
+
+
+def add_links(parser):
+    """two links applied on parse: a plain target (--tot = 3 * --src) and an init_args target of a class argument (--lk)."""
+    parser.add_argument("--src", type=int, default=2)
+    parser.add_argument("--tot", type=int, default=0)
+    parser.add_argument("--lk", type=Base, default=lazy_instance(Sub1, m="k"))
+    parser.link_arguments("src", "tot", compute_fn=tot_fn)
+    parser.link_arguments("src", "lk.init_args.n")
 
 
 # ------------------------------------------------------------------------------------------------ alpha: deep snapshots
@@ -304,9 +317,9 @@ def replay_cases(task: dict) -> list:
     events = []
     try:
         for case in task["cases"]:
-            T, op, grp = case["T"], case["op"], case["grp"]
+            T, op, pl = case["T"], case["op"], case["pl"]
             heap = case["h"]
-            vkey = "g.v" if grp else "v"
+            vkey = "g.v" if pl == "grp" else "v"
             on_defaults = op in ("get_defaults", "format_help", "parse_args")
             if on_defaults:  # the emitted node maps dest -> declared default
                 memo = {}
@@ -318,8 +331,13 @@ def replay_cases(task: dict) -> list:
             kw = {}
             if on_defaults:
                 kw = {"v": {"default": dvals[vkey]}, "w": {"default": dvals["w"]}}
-            p.add_argument("--" + vkey, type=hint(T), **kw.get("v", {}))
-            p.add_argument("--w", type=Tuple[int, List[int]], **kw.get("w", {}))
+            holder = p
+            if pl == "sub":  # a root parser with nothing but sub-commands: the typed keys live in the parser of sub-command s
+                holder = ArgumentParser(exit_on_error=False)
+            holder.add_argument("--" + vkey, type=hint(T), **kw.get("v", {}))
+            holder.add_argument("--w", type=Tuple[int, List[int]], **kw.get("w", {}))
+            if pl == "sub":
+                p.add_subcommands(required=False).add_subcommand("s", holder)
             if on_defaults:
                 dk = [{"p": k["p"], "T": k["T"], "d": k["d"]} for k in case["keys"]]
                 ev = observe_call(op, p, {}, "", [], lambda: call_op(op, p, None, d), {"dkeys": dk, "dactive": dk})
@@ -328,7 +346,7 @@ def replay_cases(task: dict) -> list:
                 ev = observe_call(op, p, {"arg": arg}, "arg", keys, lambda: call_op(op, p, arg, d))
             ev.pop("_ret")
             ev["cmpok"] = True
-            ev["_case"] = {k: case[k] for k in ("T", "fl", "op", "root", "grp", "flagged", "value", "ok")}
+            ev["_case"] = {k: case[k] for k in ("T", "fl", "op", "root", "pl", "flagged", "value", "ok")}
             events.append(ev)
         return events
     finally:
@@ -415,6 +433,7 @@ def build_rich(scratch: str):
     p.add_argument("--cls", type=Base, default=lazy_instance(Sub1, m="d"))
     p.add_argument("--lc", type=List[Base], default=[{"class_path": MODNAME + ".Base", "init_args": {"n": 4}}])
     p.add_argument("--oc", type=Optional[Base], default=None)
+    add_links(p)
     sc = p.add_subcommands(required=False)
     a = ArgumentParser(exit_on_error=False)
     for n in SUBA:
@@ -575,6 +594,7 @@ def random_history(task: dict) -> list:
                  (["--cls=Base", "--cls.n=3"], (), False, False), (["--help"], (), False, False), (["--print_config"], (), False, True),
                  (["--se=[RED,GREEN]", "--print_config"], ("se",), False, True),
                  (["--lc+=Sub1"], (), False, False), (["--se=[RED,GREEN]"], ("se",), False, False), (["--oc=Sub1", "--oc.m=z"], (), False, False),
+                 (["--src=5"], (), False, False), (["--src=4", "--lk=Base", "--li=[7]"], ("li",), False, False),
                  (["a", "--tl=[3,[x]]"], (), True, False)]
         TEXTS = [("li: [1, 2]\n", ("li",), False), ("g:\n  dli:\n    a: [1]\n", ("g.dli",), False), ("li: [x]\n", (), False),
                  ("tl: [1, [2, 3]]\ncls:\n  class_path: Sub1\n", ("tl",), False), ("a:\n  li: [9]\n", ("a.li",), True)]
@@ -618,7 +638,7 @@ def random_history(task: dict) -> list:
                 if op == "validate":
                     ret = emit(op, {"arg": cfg}, "arg", keys, lambda: p.validate(cfg), note)
                 elif op == "dump":
-                    kw = rnd.choice([{}, {"format": "json"}, {"skip_none": False}, {"skip_default": True}])
+                    kw = rnd.choice([{}, {"format": "json"}, {"skip_none": False}, {"skip_default": True}, {"skip_link_targets": False}])
                     emit(op, {"arg": cfg}, "arg", keys, lambda: p.dump(cfg, **kw), note + f" {kw}", dinfo(sdef=bool(kw.get("skip_default"))))
                     ret = None
                 elif op == "instantiate_classes":
@@ -646,7 +666,14 @@ def random_history(task: dict) -> list:
                     ret = emit(op, {"arg": cfg}, "arg", keys, lambda: p.strip_unknown(cfg), note)
                 elif op == "save":
                     path = os.path.join(d, "out%d.yaml" % len(events))
-                    emit(op, {"arg": cfg, "path": path}, "arg", keys, lambda: p.save(cfg, path, overwrite=True), note)
+                    if rnd.random() < 0.35:  # single-file mode is dump() into a file: op "save1"
+                        emit("save1", {"arg": cfg, "path": path}, "arg", keys, lambda: p.save(cfg, path, overwrite=True, multifile=False), note)
+                    else:
+                        ow = rnd.random() < 0.8  # sometimes a save that refuses to overwrite (raises after the copy was made)
+                        if not ow:
+                            open(path, "w").close()
+                        # a refused save stops at check_overwrite (_core.py:907), before any copy or validation: op "save_refused"
+                        emit(op if ow else "save_refused", {"arg": cfg, "path": path}, "arg", keys, lambda: p.save(cfg, path, overwrite=ow), note)
                     ret = None
                 elif op == "clone":
                     ret = emit(op, {"arg": cfg}, "arg", keys, lambda: cfg.clone(), note)
@@ -655,6 +682,163 @@ def random_history(task: dict) -> list:
                                dinfo(dests_of(keys), isinstance(cfg.get("a"), Namespace)))
             if isinstance(ret, Namespace) and len(results) < 6 and events[-1].get("op", "").startswith(("parse_", "get_defaults")):
                 results.append(ret)  # only what a parse returned (valid, adapted) is fed to later calls as an "earlier result"
+        # epilogue (every history): one configuration returned by a parse - it carries the targets of the parse-time links -
+        # goes through save (both modes), dump, validate and instantiate_classes, each between two deep snapshots
+        cfg = next((r for r in results if "tot" in r), None)
+        if cfg is None:
+            cfg = emit("parse_args", {"argv": ["--src=6"]}, "", [], quiet(lambda: p.parse_args(["--src=6"])), "epilogue", dinfo())
+        if cfg is not None:
+            keys = typed_keys_of(cfg)
+            emit("save", {"arg": cfg}, "arg", keys, lambda: p.save(cfg, os.path.join(d, "epi.yaml"), overwrite=True), "epilogue, earlier result")
+            emit("save1", {"arg": cfg}, "arg", keys, lambda: p.save(cfg, os.path.join(d, "epi1.yaml"), overwrite=True, multifile=False), "epilogue, earlier result")
+            emit("dump", {"arg": cfg}, "arg", keys, lambda: p.dump(cfg, skip_link_targets=False), "epilogue, earlier result")
+            emit("validate", {"arg": cfg}, "arg", keys, lambda: p.validate(cfg), "epilogue, earlier result")
+            emit("instantiate_classes", {"arg": cfg}, "arg", keys, lambda: p.instantiate_classes(cfg), "epilogue, earlier result")
+        for ev in events:
+            ev.pop("_keep", None)
+        return events
+    finally:
+        os.chdir("/")
+        common.rm(d)
+
+
+# ------------------------------------------------------------------------------------------------ TRACE: a root parser with ONLY sub-commands
+FIT_KEYS = ["li", "tl", "tle", "lt"]  # container-typed arguments of sub-command fit
+FIT_CLS = {"cls": TCLS, "oc": {"k": "opt", "a": [TCLS]}, "lc": {"k": "list", "a": [TCLS]}, "lk": TCLS}
+
+
+def build_subonly():
+    """the root parser owns nothing but --cfg and the sub-commands; every typed / class-typed argument (lazy defaults,
+    signature-default specs, links) lives in the parser of a sub-command."""
+    import copy
+
+    root = ArgumentParser(prog="only", exit_on_error=False)
+    root.add_argument("--cfg", action=ActionConfigFile)
+    sc = root.add_subcommands(required=True)
+    fit = ArgumentParser(exit_on_error=False)
+    for n in FIT_KEYS:
+        fit.add_argument("--" + n, type=hint(RICH_TYPES[n]), default=copy.deepcopy(RICH_DEFAULTS[n]))
+    fit.add_argument("--cls", type=Base, default=lazy_instance(Sub1, m="d"))
+    fit.add_argument("--oc", type=Optional[Base], default=None)
+    fit.add_argument("--lc", type=List[Base], default=[{"class_path": MODNAME + ".Base", "init_args": {"n": 4}}])
+    add_links(fit)
+    tune = ArgumentParser(exit_on_error=False)
+    tune.add_argument("--li", type=hint(RICH_TYPES["li"]), default=[3])
+    sc.add_subcommand("fit", fit)
+    sc.add_subcommand("tune", tune)
+    return root
+
+
+def subonly_keys(cfg) -> list:
+    keys = []
+    for sub, names in (("fit", FIT_KEYS + list(FIT_CLS)), ("tune", ["li"])):
+        v = cfg.get(sub) if isinstance(cfg, Namespace) else None
+        if isinstance(v, Namespace):
+            for m in vars(v):
+                if m in names:
+                    keys.append({"p": [sub, m], "T": FIT_CLS[m] if (sub == "fit" and m in FIT_CLS) else RICH_TYPES[m], "d": 1 + names.index(m)})
+    return keys
+
+
+def subonly_defaults(sub: str, given=()) -> list:
+    names = FIT_KEYS if sub == "fit" else (["li"] if sub == "tune" else [])
+    return [{"p": [f"{sub}.{n}"], "T": RICH_TYPES[n], "d": 1 + i} for i, n in enumerate(names) if f"{sub}.{n}" not in given]
+
+
+def subonly_history(task: dict) -> list:
+    """a forked child: one history on the sub-commands-only parser; configurations returned by parses are validated, dumped,
+    saved (both modes), instantiated TWICE (Fresh through a sub-command), stripped, merged - every call snapshotted."""
+    import contextlib
+    import io
+    import random
+
+    signal.alarm(600)
+    rnd = random.Random(task["seed"])
+    d = str(common.scratch("c08s"))
+    os.chdir(d)
+    events = []
+    try:
+        p = build_subonly()
+        results = []
+
+        def emit(op, named, argname, keys, fn, note="", di=None):
+            ev = observe_call(op, p, named, argname, keys, fn, di or {})
+            ret = ev.pop("_ret")
+            ev["_note"] = "sub-commands only: " + note
+            events.append(ev)
+            return ret if ev["ok"] else None
+
+        def quiet(fn):
+            def run():
+                with contextlib.redirect_stdout(io.StringIO()), contextlib.redirect_stderr(io.StringIO()):
+                    return fn()
+            return run
+
+        ARGVS = [(["fit"], "fit", (), False), (["fit", "--li=[1,2]"], "fit", ("fit.li",), False), (["fit", "--oc=Sub1", "--src=5"], "fit", (), False),
+                 (["fit", "--tl=[1,[x]]"], "fit", (), False), (["tune", "--li=[3]"], "tune", ("tune.li",), False), (["tune"], "tune", (), False),
+                 (["fit", "--cls=Base", "--lc+=Sub1"], "fit", (), False), ([], "", (), False), (["--print_config", "fit"], "fit", (), True),
+                 (["fit", "--tle=[2,[GREEN]]", "--lk=Base"], "fit", ("fit.tle",), False)]
+        for step in range(rnd.randint(3, task["maxlen"])):
+            prior = rnd.choice(results) if results else None
+            if prior is None or rnd.random() < 0.3:
+                argv, sub, given, pser = rnd.choice(ARGVS if results else ARGVS[:3])
+                di = {"dkeys": [], "dactive": subonly_defaults(sub, given), "pser": pser}
+                ret = emit("parse_args", {"argv": argv}, "", [], quiet(lambda: p.parse_args(argv)), "argv", di)
+                if isinstance(ret, Namespace) and len(results) < 5:
+                    results.append(ret)
+                continue
+            cfg, keys = prior, subonly_keys(prior)
+            sub = "fit" if isinstance(cfg.get("fit"), Namespace) else "tune"
+            op = rnd.choice(["instantiate_classes", "instantiate_classes", "validate", "dump", "save", "save", "strip_unknown", "merge_config", "clone", "parse_object", "get_defaults"])
+            if op == "instantiate_classes":
+                ret = emit(op, {"arg": cfg}, "arg", keys, lambda: p.instantiate_classes(cfg), "earlier result")
+                if ret is not None:  # Fresh through the sub-command: instantiate the same configuration again
+                    old = set()
+                    built_objects(cfg, old, set())
+                    for _k, dv in declared_defaults(p):
+                        built_objects(dv, old, set())
+                    o1, o2, desc = set(), set(), {}
+                    built_objects(ret, o1, set(), desc, "first")
+                    ret2 = p.instantiate_classes(cfg)
+                    built_objects(ret2, o2, set(), desc, "second")
+                    events.append({"kind": "fresh", "objs1": sorted(str(x) for x in o1), "objs2": sorted(str(x) for x in o2),
+                                   "old": sorted(str(x) for x in old), "_note": f"sub-commands only: {len(o1)} / {len(o2)} objects", "_desc": desc,
+                                   "_cfg": repr(cfg)[:1500], "_keep": (ret, ret2)})
+            elif op == "validate":
+                emit(op, {"arg": cfg}, "arg", keys, lambda: p.validate(cfg), "earlier result")
+            elif op == "dump":
+                kw = rnd.choice([{}, {"format": "json"}, {"skip_link_targets": False}, {"skip_none": False}])
+                emit(op, {"arg": cfg}, "arg", keys, lambda: p.dump(cfg, **kw), f"earlier result {kw}")
+            elif op == "save":
+                path = os.path.join(d, "out%d.yaml" % len(events))
+                if rnd.random() < 0.4:
+                    emit("save1", {"arg": cfg, "path": path}, "arg", keys, lambda: p.save(cfg, path, overwrite=True, multifile=False), "earlier result")
+                else:
+                    emit("save", {"arg": cfg, "path": path}, "arg", keys, lambda: p.save(cfg, path, overwrite=True), "earlier result")
+            elif op == "strip_unknown":
+                emit(op, {"arg": cfg}, "arg", keys, lambda: p.strip_unknown(cfg), "earlier result")
+            elif op == "merge_config":
+                other = rnd.choice(results)
+                emit(op, {"arg": cfg, "other": other}, "arg", keys, lambda: p.merge_config(cfg, other), "earlier result as cfg_from")
+            elif op == "clone":
+                emit(op, {"arg": cfg}, "arg", keys, lambda: cfg.clone(), "earlier result")
+            elif op == "get_defaults":
+                emit(op, {}, "", [], lambda: p.get_defaults(), "")
+            else:
+                di = {"dkeys": [], "dactive": subonly_defaults(sub, dests_of(keys))}
+                emit("parse_object", {"arg": cfg}, "arg", keys, lambda: p.parse_object(cfg), "earlier result (Namespace)", di)
+        # epilogue (every history): a configuration of sub-command fit (link targets, class specs) through the same operations
+        cfg = next((r for r in results if isinstance(r.get("fit"), Namespace)), None)
+        if cfg is None:
+            cfg = emit("parse_args", {"argv": ["fit", "--src=6"]}, "", [], quiet(lambda: p.parse_args(["fit", "--src=6"])), "epilogue",
+                       {"dkeys": [], "dactive": subonly_defaults("fit")})
+        if cfg is not None:
+            keys = subonly_keys(cfg)
+            emit("save", {"arg": cfg}, "arg", keys, lambda: p.save(cfg, os.path.join(d, "epi.yaml"), overwrite=True), "epilogue, earlier result")
+            emit("save1", {"arg": cfg}, "arg", keys, lambda: p.save(cfg, os.path.join(d, "epi1.yaml"), overwrite=True, multifile=False), "epilogue, earlier result")
+            emit("dump", {"arg": cfg}, "arg", keys, lambda: p.dump(cfg, skip_link_targets=False), "epilogue, earlier result")
+            emit("validate", {"arg": cfg}, "arg", keys, lambda: p.validate(cfg), "epilogue, earlier result")
+            emit("instantiate_classes", {"arg": cfg}, "arg", keys, lambda: p.instantiate_classes(cfg), "epilogue, earlier result")
         for ev in events:
             ev.pop("_keep", None)
         return events
@@ -702,18 +886,20 @@ def main(argv):
     rep.extra["model_flagged_value_cases"] = sum(1 for c in cases if c["value"])
     table = {}
     for c in cases:  # non-vacuity of the invariants: which (operation, flavour, Alg verdict, Alg outcome) combinations the instance contains
-        k = f"{c['op']}/{c['root']}/{c['fl']}/{'flagged' if c['flagged'] else 'cleared'}/{'returns' if c['ok'] else 'raises'}"
+        k = f"{c['op']}/{c['root']}/{c['pl']}/{c['fl']}/{'flagged' if c['flagged'] else 'cleared'}/{'returns' if c['ok'] else 'raises'}"
         table[k] = table.get(k, 0) + 1
     rep.extra["model_case_table"] = table
 
     # ---- REPLAY + TRACE executions
     batch = 60
     tasks = [{"cases": cases[i : i + batch]} for i in range(0, len(cases), batch)]
-    n_hist = 120 if tier == "quick" else 700
+    n_hist = 50 if tier == "quick" else 500
+    n_sub = 30 if tier == "quick" else 250
     htasks = [{"seed": f"{common.seed()}/{PID}/{i}", "maxlen": 12 if tier == "quick" else 40, "dcf": rnd.random() < 0.3} for i in range(n_hist)]
+    stasks = [{"seed": f"{common.seed()}/{PID}/sub/{i}", "maxlen": 12 if tier == "quick" else 40} for i in range(n_sub)]
     try:
         replayed = [ev for evs in pool_map(replay_cases, tasks, procs) for ev in evs]
-        histories = pool_map(random_history, htasks, procs)
+        histories = pool_map(random_history, htasks, procs) + pool_map(subonly_history, stasks, procs)
     except Exception as ex:  # noqa: BLE001
         machinery_failure(PID, f"execution failed: {type(ex).__name__}: {ex}")
     events = list(replayed)
@@ -727,7 +913,7 @@ def main(argv):
     tmp = common.scratch("c08-trace")
     rejects = []
     try:
-        chunk = 2500
+        chunk = 5000 if tier == "quick" else 2500
         for ci in range(0, len(events), chunk):
             part = events[ci : ci + chunk]
             f = tmp / f"trace{ci}.json"
@@ -748,7 +934,7 @@ def main(argv):
     n_fresh = len(events) - n_calls
     rep.traces = len(events)
     rep.evaluations = len(events)
-    rep.extra.update({"replayed_model_cases": len(replayed), "random_histories": n_hist, "history_events": len(events) - len(replayed),
+    rep.extra.update({"replayed_model_cases": len(replayed), "random_histories": n_hist, "subcommands_only_histories": n_sub, "history_events": len(events) - len(replayed),
                       "fresh_events": n_fresh, "calls_that_raised": sum(1 for e in events if e["kind"] == "call" and not e["ok"])})
     for e in events:
         if e["kind"] == "call" and e["arg"] and e["keys"]:
@@ -762,7 +948,7 @@ def main(argv):
                 "non-trivial & distinct = distinct (operation, outcome, typed keys, abstract pre-heap of the arguments) with at least one nested container, plus distinct double instantiations that built objects")
     rep.exhaustive = False
     rep.explanation = (f"MC_Heap enumerated {len(cases)} (nesting, flavour, operation, argument kind) cases completely and all of them were executed on the real code; "
-                       f"{n_hist} random histories added {len(events) - len(replayed)} snapshotted events ({n_fresh} double instantiations); TLC validated all {len(events)} events against Trace_Heap")
+                       f"{n_hist} random histories on the rich parser and {n_sub} on the sub-commands-only parser added {len(events) - len(replayed)} snapshotted events ({n_fresh} double instantiations); TLC validated all {len(events)} events against Trace_Heap")
     flagged_seen = [e for e in replayed if e["_case"]["flagged"]]
     for e in (flagged_seen[:1] + replayed[:1] + [ev for evs in histories for ev in evs][:2]):
         rep.sample({k: (v if not k.startswith("h") else {"cells": len(v)}) for k, v in e.items() if k not in ("_ret",)} if e["kind"] == "call" else e)
